@@ -76,6 +76,8 @@ MonStep(m, e) ==
       [] e.ev = "Cancel"    -> [m EXCEPT !.cancelled = @ \cup {e.tag}]
       [] e.ev = "CallRet"   -> OnRet(m, e)
       [] e.ev = "Stuck"     -> OnStuck(m, e)
+      \* the keep-alive ping got no pong with its id - only a Pong with a foreign id - and yet did not run into its deadline
+      [] e.ev = "PingNotTimedOut" -> [m EXCEPT !.bad = @ \cup {"PingAnsweredByStranger"}]
       [] e.ev = "ConnClosed" -> [m EXCEPT !.bad = @ \cup (IF m.ptimeout THEN {} ELSE {"ConnLost"}), !.closing = TRUE]
       [] e.ev = "Closing"   -> [m EXCEPT !.closing = TRUE]
       \* the harness positioned the id counter: ids of finished requests lie about 2^31 requests back - only the outstanding ones count
